@@ -256,7 +256,10 @@ pub fn t2_cfgs(tier: &str) -> Vec<(String, Cfg, usize, bool)> {
         c.ticks = [3, 3];
         c.reorder = true;
         let big = wa.max(wb) > 2000;
-        let d = if tier == "quick" {
+        // hundreds of segments: a second level of deviations is tens of millions of stored
+        // prefixes (the first thorough run of this configuration took 64 GB)
+        let many = mtu <= 101 && wa.max(wb) >= 9000;
+        let d = if tier == "quick" || many {
             1
         } else if big {
             2
@@ -269,7 +272,7 @@ pub fn t2_cfgs(tier: &str) -> Vec<(String, Cfg, usize, bool)> {
             let mut l = c.clone();
             l.auto_read = false;
             l.ticks = [6, 6];
-            v.push((format!("T2 mtu{mtu} w[{wa}|{wb}] drop2 dup1 tick6, late reader"), l, if tier == "quick" { 1 } else { 2 }, true));
+            v.push((format!("T2 mtu{mtu} w[{wa}|{wb}] drop2 dup1 tick6, late reader"), l, if tier == "quick" || many { 1 } else { 2 }, true));
         }
     }
     {
